@@ -36,6 +36,14 @@ impl ManualHeap {
         self.bytes_allocated
     }
 
+    /// Every value currently held in a live (not freed) buffer: the collector's roots.
+    pub fn live_values(&self) -> impl Iterator<Item = Value> + '_ {
+        self.allocations
+            .iter()
+            .filter(|a| !a.freed)
+            .flat_map(|a| a.data.iter().copied())
+    }
+
     /// Allocate with a guard that warns if not explicitly freed.
     pub fn alloc_guarded(
         &mut self,
